@@ -22,7 +22,8 @@ _ROUTING_DECISION_KEY = "__routing_decision__"
 def _node_identity(node: HyperNode) -> str:
     """Definition hash qualified by what the cached outputs are stored under."""
     targets = getattr(node, "targets", None)
-    return f"{node.definition_hash}:{type(node).__name__}:{node.outputs!r}:{targets!r}"
+    fallback = getattr(node, "fallback", None)
+    return f"{node.definition_hash}:{type(node).__name__}:{node.outputs!r}:{targets!r}:{fallback!r}"
 
 
 def check_cache(
